@@ -115,9 +115,16 @@ func TestC03Zoo(t *testing.T) {
 				return
 			}
 			c := map[string]interface{}{"target": tg.Name, "shape": tg.Shape, "regime": regime, "arg": a, "depth": depth, "got": o.r, "want": w, "callbacks": o.count, "placeholder": side}
-			if !tg.Recursive && chk && o.count == 2 && o.r == tr(tr(exp[a])) && again.r == w && again.count == wc {
+			// one re-entry per stack growth that happens at the placeholder's relocated stack check: a large frame can
+			// need more than one growth (each re-entered callback consumes stack again), so callbacks = n in 2..6
+			// with result T^n(expected) is the same finding; anything else is not.
+			tn := exp[a]
+			for i := int64(0); i < o.count && i < 7; i++ {
+				tn = tr(tn)
+			}
+			if !tg.Recursive && chk && o.count >= 2 && o.count <= 6 && o.r == tn && again.r == w && again.count == wc {
 				atomic.AddInt64(&reentries, 1)
-				rep.Violate("C03/reentry-after-stack-growth", fmt.Sprintf("%s (%s): calling the origin placeholder with little stack headroom re-entered the mock (callback ran twice, result %d = T(T(%d)))", tg.Name, tg.Shape, o.r, exp[a]), c)
+				rep.Violate("C03/reentry-after-stack-growth", fmt.Sprintf("%s (%s): calling the origin placeholder with little stack headroom re-entered the mock (callback ran %d times, result %d = T^%d(%d))", tg.Name, tg.Shape, o.count, o.r, o.count, exp[a]), c)
 				return
 			}
 			rep.Violate("C03/origin-wrong-result", fmt.Sprintf("%s (%s) %s a=%d depth=%d: got %d (callbacks %d), want %d (callbacks %d)", tg.Name, tg.Shape, regime, a, depth, o.r, o.count, w, wc), c)
